@@ -163,3 +163,171 @@ Example C08_roundtrip_sweep :
   = [(0, (0, 0), 0); (1, (0, 1), 1); (5, (0, 3), 5); (6, (0, 4), 6); (7, (0, 4), 6); (8, (1, 0), 8);
      (9, (2, 0), 9); (10, (2, 1), 10); (11, (3, 0), 11); (12, (4, 0), 12); (13, (4, 1), 13)].
 Proof. vm_compute. reflexivity. Qed.
+
+(* ------------------------------------------------------------------------------------------ *)
+(* 8. TOKENS.  "Any range the server reports for a token, sent back as a request position, addresses that
+   same token."  The server reports as_position (ts tok) / as_position (te tok) of lexer tokens (semantic
+   tokens, hover / rename / reference ranges, diagnostics); a request position is mapped back with
+   get_insertion_index and looked up in the token vector ([token_at] = DocumentCursor::ident's `find`,
+   through [doc_cursor]).  Statements for ALL texts t and all tokens of lex t, Eof included.
+   Proofs in Proofs/TokRoundLex.v (where token boundaries can lie) and Proofs/TokRoundTop.v. *)
+From Spl Require Import Model.Lexer Model.Cursor Proofs.TokRoundTop.
+
+(* 8.1 a token STARTS on a character boundary that is never between the CR and the LF of a CR LF pair
+   (white space - blank, tab, CR, LF - is skipped in front of every token, so what follows the start is
+   not an LF) ... *)
+Theorem C08_token_start_boundary : forall t toks tok,
+  lex t = Some toks -> In tok toks ->
+  exists a b, t = a ++ b /\ blen a = ts tok /\ ~ (exists a' b', a = a' ++ [13] /\ b = 10 :: b').
+Proof. exact tok_start_boundary. Qed.
+Print Assumptions C08_token_start_boundary.
+
+(* ... hence the reported start position of every token, sent back, is the start of that token *)
+Theorem C08_token_start_roundtrip : forall t toks tok,
+  lex t = Some toks -> In tok toks ->
+  let p := as_position (ts tok) t in
+  get_insertion_index (fst p) (snd p) t = ts tok.
+Proof. exact tok_start_roundtrip. Qed.
+Print Assumptions C08_token_start_roundtrip.
+
+(* 8.2 a token ENDS on a character boundary; this boundary lies between a CR and its LF for exactly one
+   kind of token: the unterminated character literal "'" CR directly followed by LF (Char::lex takes
+   `anychar` behind the tick; the token is the two bytes "'" CR and carries MissingClosingTick at its end).
+   A comment takes the CR of its line and the LF, so it ends behind the pair. *)
+Theorem C08_token_end_boundary : forall t toks tok,
+  lex t = Some toks -> In tok toks ->
+  exists a b, t = a ++ b /\ blen a = te tok /\
+    ((exists a' b', a = a' ++ [13] /\ b = 10 :: b') ->
+     tk tok = CharT 13 /\ terr tok = [mkerr (te tok) (te tok) MissingClosingTick] /\ te tok = ts tok + 2).
+Proof. exact tok_end_boundary. Qed.
+Print Assumptions C08_token_end_boundary.
+
+(* the reported end position of every other token, sent back, is the end of that token *)
+Theorem C08_token_end_roundtrip : forall t toks tok,
+  lex t = Some toks -> In tok toks ->
+  ~ (tk tok = CharT 13 /\ terr tok <> [] /\ exists a b', t = a ++ 10 :: b' /\ blen a = te tok) ->
+  let p := as_position (te tok) t in
+  get_insertion_index (fst p) (snd p) t = te tok.
+Proof. exact tok_end_roundtrip. Qed.
+Print Assumptions C08_token_end_roundtrip.
+
+(* FINDING (the excluded token): the end of "'" CR in front of LF is reported as the position in front of the
+   CR - the reported range of the token and of its diagnostic covers the tick only - and, sent back, yields
+   te tok - 1 = ts tok + 1, an index INSIDE the token *)
+Theorem C08_token_end_crlf : forall t toks tok,
+  lex t = Some toks -> In tok toks ->
+  tk tok = CharT 13 -> terr tok <> [] -> (exists a b', t = a ++ 10 :: b' /\ blen a = te tok) ->
+  let p := as_position (te tok) t in
+  te tok = ts tok + 2 /\
+  p = as_position (ts tok + 1) t /\
+  get_insertion_index (fst p) (snd p) t = ts tok + 1.
+Proof. exact tok_end_roundtrip_cr. Qed.
+Print Assumptions C08_token_end_crlf.
+
+(* 8.3 the token lookup of the request handlers, at the index of a reported token start, finds that token *)
+Theorem C08_token_lookup : forall t toks tok,
+  lex t = Some toks -> In tok toks -> tk tok <> Eof ->
+  let p := as_position (ts tok) t in
+  token_at toks (get_insertion_index (fst p) (snd p) t) = Some tok.
+Proof. exact tok_start_lookup. Qed.
+Print Assumptions C08_token_lookup.
+
+(* ... through doc_cursor (every position-based handler's first step) and DocumentCursor::ident *)
+Theorem C08_token_cursor : forall d tok cur,
+  lex (d_text d) = Some (d_toks d) -> In tok (d_toks d) -> tk tok <> Eof ->
+  let p := as_position (ts tok) (d_text d) in
+  doc_cursor d (fst p) (snd p) = ROk cur ->
+  token_at (d_toks (c_doc cur)) (c_index cur) = Some tok /\
+  (forall name, tk tok = Ident name -> cursor_ident cur = Some (name, (ts tok, te tok))).
+Proof. exact tok_start_cursor. Qed.
+Print Assumptions C08_token_cursor.
+
+(* even the reported END of the excluded token is looked up as that token *)
+Theorem C08_token_end_crlf_lookup : forall t toks tok,
+  lex t = Some toks -> In tok toks ->
+  tk tok = CharT 13 -> terr tok <> [] -> (exists a b', t = a ++ 10 :: b' /\ blen a = te tok) ->
+  let p := as_position (te tok) t in
+  token_at toks (get_insertion_index (fst p) (snd p) t) = Some tok.
+Proof. exact tok_end_lookup_cr. Qed.
+Print Assumptions C08_token_end_crlf_lookup.
+
+(* non-vacuity, evaluated independently of the theorems.  The text is
+     "// " U+00E9 U+20AC CR LF  "xy := '" U+00E4 "';" CR LF  "'" CR LF  CR  "y"
+   - a comment with a 2-byte and a 3-byte character that ends in CR LF, a character literal with a 2-byte
+   character, the excluded literal "'" CR in front of LF, a lone CR as line end.  Lines: 0 the comment,
+   1 the assignment, 2 "'" CR LF, 3 the lone CR, 4 "y". *)
+Definition c08_tok_text : text :=
+  [47; 47; 32; 233; 8364; 13; 10;  120; 121; 32; 58; 61; 32; 39; 228; 39; 59; 13; 10;  39; 13; 10;  13;  121].
+Definition c08_tick_cr : token :=
+  {| tk := CharT 13; ts := 23; te := 25; terr := [ {| le_s := 25; le_e := 25; le_m := MissingClosingTick |} ] |}.
+Definition c08_toks : list token :=
+  [ {| tk := Comment [32; 233; 8364; 13]; ts := 0; te := 10; terr := [] |};
+    {| tk := Ident [120; 121]; ts := 10; te := 12; terr := [] |};
+    {| tk := Assign; ts := 13; te := 15; terr := [] |};
+    {| tk := CharT 228; ts := 16; te := 20; terr := [] |};
+    {| tk := Semic; ts := 20; te := 21; terr := [] |};
+    c08_tick_cr;
+    {| tk := Ident [121]; ts := 27; te := 28; terr := [] |};
+    {| tk := Eof; ts := 28; te := 28; terr := [] |} ].
+
+Example C08_token_ex_lex : lex c08_tok_text = Some c08_toks.
+Proof. vm_compute. reflexivity. Qed.
+
+(* per token: start, end, reported start position and the index it yields, reported end position and the
+   index it yields.  Every start round-trips; every end round-trips except 25, the end of "'" CR: its
+   position (2, 1) is the one of index 24 *)
+Example C08_token_ex_sweep :
+  map (fun k => let p := as_position (ts k) c08_tok_text in
+                let q := as_position (te k) c08_tok_text in
+                (ts k, te k, (p, get_insertion_index (fst p) (snd p) c08_tok_text),
+                             (q, get_insertion_index (fst q) (snd q) c08_tok_text))) c08_toks
+  = [ (0, 10, ((0, 0), 0), ((1, 0), 10));
+      (10, 12, ((1, 0), 10), ((1, 2), 12));
+      (13, 15, ((1, 3), 13), ((1, 5), 15));
+      (16, 20, ((1, 6), 16), ((1, 9), 20));
+      (20, 21, ((1, 9), 20), ((1, 10), 21));
+      (23, 25, ((2, 0), 23), ((2, 1), 24));
+      (27, 28, ((4, 0), 27), ((4, 1), 28));
+      (28, 28, ((4, 1), 28), ((4, 1), 28)) ].
+Proof. vm_compute. reflexivity. Qed.
+
+(* the lookup at the index of every reported start finds the token itself (nothing for the empty Eof) *)
+Example C08_token_ex_lookup :
+  map (fun k => let p := as_position (ts k) c08_tok_text in
+                token_at c08_toks (get_insertion_index (fst p) (snd p) c08_tok_text)) c08_toks
+  = map (fun k => match tk k with Eof => None | _ => Some k end) c08_toks.
+Proof. vm_compute. reflexivity. Qed.
+
+(* the counterexample: the hypotheses of C08_token_end_crlf hold for the sixth token, the cut at its end is
+   between CR and LF, and the round trip of its end misses it by one *)
+Example C08_token_ex_crlf :
+  In c08_tick_cr c08_toks
+  /\ tk c08_tick_cr = CharT 13 /\ terr c08_tick_cr <> []
+  /\ (exists a b', c08_tok_text = a ++ 10 :: b' /\ blen a = te c08_tick_cr)
+  /\ as_position (te c08_tick_cr) c08_tok_text = (2, 1)
+  /\ as_position (ts c08_tick_cr + 1) c08_tok_text = (2, 1)
+  /\ get_insertion_index 2 1 c08_tok_text = 24
+  /\ token_at c08_toks 24 = Some c08_tick_cr.
+Proof.
+  split; [cbn; tauto|]. split; [reflexivity|]. split; [discriminate|]. split.
+  - exists [47; 47; 32; 233; 8364; 13; 10;  120; 121; 32; 58; 61; 32; 39; 228; 39; 59; 13; 10;  39; 13], [13; 121].
+    split; vm_compute; reflexivity.
+  - vm_compute. repeat split; reflexivity.
+Qed.
+
+(* the smallest instance, and the neighbouring cases that are NOT exceptions: a comment in front of CR LF
+   ends behind the LF; "'" CR at the end of the text and "'" CR "'" end at ordinary boundaries *)
+Example C08_token_ex_small :
+  lex [39; 13; 10]
+  = Some [ {| tk := CharT 13; ts := 0; te := 2; terr := [ {| le_s := 2; le_e := 2; le_m := MissingClosingTick |} ] |};
+           {| tk := Eof; ts := 3; te := 3; terr := [] |} ]
+  /\ as_position 2 [39; 13; 10] = (0, 1) /\ get_insertion_index 0 1 [39; 13; 10] = 1
+  /\ lex [47; 47; 120; 13; 10; 39; 13]
+     = Some [ {| tk := Comment [120; 13]; ts := 0; te := 5; terr := [] |};
+              {| tk := CharT 13; ts := 5; te := 7; terr := [ {| le_s := 7; le_e := 7; le_m := MissingClosingTick |} ] |};
+              {| tk := Eof; ts := 7; te := 7; terr := [] |} ]
+  /\ as_position 7 [47; 47; 120; 13; 10; 39; 13] = (2, 0) /\ get_insertion_index 2 0 [47; 47; 120; 13; 10; 39; 13] = 7
+  /\ lex [39; 13; 39; 10]
+     = Some [ {| tk := CharT 13; ts := 0; te := 3; terr := [] |}; {| tk := Eof; ts := 4; te := 4; terr := [] |} ]
+  /\ as_position 3 [39; 13; 39; 10] = (1, 1) /\ get_insertion_index 1 1 [39; 13; 39; 10] = 3.
+Proof. vm_compute. repeat split; reflexivity. Qed.
